@@ -15,7 +15,7 @@ PROPS_DEFUSE = "RotoV.Props.C05DefUse"
 MODULES_DEFUSE = ["RotoV.Model.BoundaryDefUse", "RotoV.Lemmas.BoundaryDefUse"]
 # only built-in and registered types cross: the generated name tests of check_roto_type
 PROPS_GATE = "RotoV.Props.C05Gate"
-MODULES_GATE = ["RotoV.Model.BoundaryGate"]
+MODULES_GATE = ["RotoV.Model.BoundaryGate", "RotoV.Lemmas.BoundaryGate"]
 
 
 def search(ctx):
